@@ -1,16 +1,50 @@
 #!/usr/bin/env python3
-"""usage: tools/write_meta.py <seed-id> <PROP> <needs-to-manifest> <PROP=how caught>...   (reads seeded/<id>/confirm.json)"""
-import json, sys, os
-sid, prop, needs = sys.argv[1:4]
-d = f"/verif/seeded/{sid}"
-c = json.load(open(f"{d}/confirm.json"))
-caught = dict(a.split("=", 1) for a in sys.argv[4:])
-meta = {
-    "id": sid, "breaks_property": prop, "needs_to_manifest": needs,
-    "source": "independent sub-agent given only the property text and a scratch worktree",
-    "confirmed": {"existing_suite_with_change": c["suite_with_change"], "demo_with_change": c["demo_with_change"], "demo_without_change": c["demo_without_change"]},
-    "what_i_ran": f"tools/confirm_seed.sh {prop} {sid} in /tmp/wt-{prop} (suite with the change and the demo moved aside; demo with and without the change); tools/try_seed.sh seeded/{sid}/patch.diff " + " ".join(caught.keys()),
-    "caught_by": caught,
+"""Assemble seeded/<id>/meta.json from confirm.json (tools/confirm_seed.sh), detection.json (tools/try_seed.sh)
+and the notes below. usage: tools/write_meta.py            (all seeds)"""
+import json, os, glob
+NOTES = {
+ "C01-callback-polled-before-signal": ("C01", "a kill signal and the wake-up of the running callback become ready between two polls of the actor task: run_with_signal now polls the callback first, so it runs on after the kill", ""),
+ "C02-admission-check-then-add": ("C02", "a drain lands between a sender's load of the admission word and its fetch_add (the CAS loop became check-then-add)", ""),
+ "C03-callback-polled-before-signal": ("C03", "same change as C01's seed, observed as priority inversion: a message handler resumes although a kill is pending", ""),
+ "C04-mark-running-inside-task": ("C04", "the actor task is aborted after spawn_linked returned but before the task's first poll: mark_running() now runs inside the task, so the cancellation event is never armed and the supervisor hears nothing", ""),
+ "C06-wait-returns-at-stopping": ("C06", "a waiter registers between the Stopping and Stopped transitions (post_stop still running) and is released at once", ""),
+ "C07-optimistic-admission": ("C07", "the drainer reads the admission word inside a losing sender's fetch_add/fetch_sub window and concludes that messages are in flight / none are", ""),
+ "C08-unlink-only-with-event": ("C08", "a start that fails after the actor was linked to its supervisor: the unlink now only happens on the path that also emits an event", ""),
+ "C09-multicall-skips-dead-member": ("C09", "a multi_call whose dead member is not the last of the list: the result vector loses the entry and later results shift", ""),
+ "C10-cleanup-reruns-on-stopped": ("C10", "a respawn under the same name between the old holder's Stopping and Stopped transitions: the second cleanup unregisters the successor", ""),
+ "C11-deferred-index-pruning": ("C11", "the sole member of a group exits while a different actor joins that group: the scope index entry is pruned after the join re-created it", "missed by the first version of the check (no scenario had a different actor joining the group of an exiting sole member); scenarios sole-member-exits-vs-other-joins and sole-member-leaves-vs-other-joins-vs-query were added"),
+ "C12-send-after-liveness-guard": ("C12", "the target actor is gone when the timer fires: the liveness guard now sits after the send, so the handle reports success", ""),
+ "C13-drain-check-ignores-current-job": ("C13", "worker-queued routing, a shrink that hits a worker holding an active job plus a queued one, then ordinary completions: the last job of its backlog is cast to a worker that is stopped in the same step", ""),
+ "C14-replacement-wipes-pending-keys": ("C14", "key-persistent routing; a worker dies with a job queued behind its active one, the pool is resized so that the key hashes elsewhere, the key is dispatched again: five events", "the quick tier of the first version enumerated histories of depth 4 only (thorough: 6): depth-5 histories over a reduced alphabet (one kind of death, no kill) were added to the quick tier"),
+ "C15-late-termination-hits-regrown-slot": ("C15", "a shrink followed by a grow that the factory handles before the retired worker's termination event arrives (both requests in the mailbox together)", "missed by the first version: the harness let the system settle after every request; burst histories (a request issued right behind the previous one) were added"),
+ "C16-forwarder-exits-on-unstarted-subscriber": ("C16", "a subscriber created by spawn_instant and subscribed before its start-up task was polled, with the forwarding task polled first", "missed by the first version (all subscribers were created by Actor::spawn); an instant subscriber was added"),
+ "C17-digest-prefix-compare": ("C17", "a challenge digest shorter than 32 bytes (zip-based comparison stops at the shorter side): an empty digest authenticates", ""),
+ "C18-election-counts-unauthenticated": ("C18", "a stalled connection that only claimed the peer's name and ranks higher in the election is present when the honest link authenticates", "missed by the first version (the spoofing connection only ever arrived after the honest link); squatter-first scenarios were added"),
+ "C19-read-len-hoisted": ("C19", "a frame payload that is not obtained in one read while the next frame's bytes are already waiting", ""),
+ "C20-tag-counter-reset-when-idle": ("C20", "a call times out at the caller while the peer's deadline is still running (transit takes time), nothing else is outstanding, and a new call is made before the late answer arrives", "missed by the first version (zero transit time: the two deadlines coincide); links with transit time on the virtual clock and the timed-out-then-call-again scenario were added"),
+ "C05-no-terminate-before-running": ("C05", "an actor that linked children in pre_start and then exits before it ever ran (pre_start Err / panic, cancelled spawn future, refused link)", "missed by the first version of C05 (caught by C08's 'the actor still has children'); start-up failure scenarios with a two-level linked subtree were added to C05"),
 }
-json.dump(meta, open(f"{d}/meta.json", "w"), indent=1)
-print(json.dumps(meta, indent=1))
+for d in sorted(glob.glob("/verif/seeded/*")):
+    sid = os.path.basename(d)
+    if sid not in NOTES or not os.path.exists(f"{d}/confirm.json"):
+        print("skip", sid); continue
+    prop, needs, hist = NOTES[sid]
+    c = json.load(open(f"{d}/confirm.json"))
+    rever = c.get("demo_reverified")
+    det = json.load(open(f"{d}/detection.json")) if os.path.exists(f"{d}/detection.json") else {}
+    caught = {p: f"{v['tier']}: exit {v['exit']}, {v['violation_lines']} VIOLATION line(s), e.g. {v['sample'].strip()[:300]}" for p, v in det.items() if v["exit"] == 1}
+    silent = [p for p, v in det.items() if v["exit"] == 0]
+    meta = {
+        "id": sid, "breaks_property": prop, "needs_to_manifest": needs,
+        "source": "independent sub-agent given only the property text and a scratch worktree of /repo",
+        "confirmed": {"existing_suite_with_change": c["suite_with_change"].strip(), "demo_with_change": c["demo_with_change"].strip(), "demo_without_change": c["demo_without_change"].strip()},
+        "what_i_ran": f"tools/confirm_seed.sh {prop} {sid} in the agent's worktree (whole workspace suite with the change and the demo moved aside; the demo with and without the change); tools/try_seed.sh {sid} " + " ".join(det.keys()) + " (git -C /repo apply, quick checks, git -C /repo checkout -- .)",
+        "caught_by": caught,
+        "also_run_without_alarm": silent,
+    }
+    if hist:
+        meta["history"] = hist
+    if rever:
+        meta["confirmed"]["demo_reverified"] = rever
+    json.dump(meta, open(f"{d}/meta.json", "w"), indent=1)
+    print(sid, "caught by", list(caught), "silent", silent)
